@@ -218,6 +218,8 @@ type SimSource struct {
 	MaxInRead  int
 	ShortReads int
 	EOFWithData int
+	EmptyReads int
+	lastEmpty  bool
 	toggle     bool
 	stuck      bool
 	Log        []ReadRec
@@ -336,6 +338,12 @@ func (s *SimSource) serve(p []byte) (int, error) {
 		}
 		return 0, s.faultErr()
 	}
+	if s.chunk.Empty > 0 && s.Reads%s.chunk.Empty == 0 && !s.lastEmpty {
+		s.lastEmpty = true
+		s.EmptyReads++
+		return 0, nil
+	}
+	s.lastEmpty = false
 	n := s.size(len(p))
 	if pending && s.pos+int64(n) >= s.fault.At {
 		n = int(s.fault.At - s.pos)
